@@ -12,6 +12,41 @@ import itertools
 import numpy as np
 
 
+def ref_w(c, rho):
+    """softmax weights exp(rho (c - m)) / sum, row-wise"""
+    c = np.atleast_2d(np.asarray(c, dtype=float))
+    e = np.exp(rho * (c - c.max(axis=1, keepdims=True)))
+    return e / e.sum(axis=1, keepdims=True)
+
+
+def _signed(g, upper, lower_flag, minimum):
+    c = np.atleast_2d(np.asarray(g, dtype=float)) - upper
+    sgn = 1.0
+    if lower_flag:
+        c, sgn = -c, -sgn
+    if minimum:
+        c, sgn = -c, -sgn
+    return c, sgn
+
+
+def ref_ks(g, rho, upper, lower_flag, minimum):
+    c, sgn = _signed(g, upper, lower_flag, minimum)
+    m = c.max(axis=1)
+    ks = m + np.log(np.exp(rho * (c - m[:, None])).sum(axis=1)) / rho
+    return -ks if minimum else ks
+
+
+def ref_jac(g, rho, upper, lower_flag, minimum):
+    """d KS[r] / d g[r', j] as the (vec_size, vec_size*width) total jacobian"""
+    c, sgn = _signed(g, upper, lower_flag, minimum)
+    w = ref_w(c, rho) * (-1.0 if lower_flag else 1.0)
+    v, n = c.shape
+    J = np.zeros((v, v * n))
+    for r in range(v):
+        J[r, r * n:(r + 1) * n] = w[r]
+    return J
+
+
 def main(tier):
     import openmdao.api as om
     from openmdao.components.ks_comp import KSfunction
@@ -58,6 +93,11 @@ def main(tier):
                                     if not (lo - tol <= ks[r] <= hi + tol):
                                         fail(kind='bracket', g=g.tolist(), rho=rho, upper=upper, lower_flag=lower_flag,
                                              minimum=minimum, ks=float(ks[r]), lo=float(lo), hi=float(hi))
+                                # closed form, computed independently of the code under test
+                                ks_ref = ref_ks(g, rho, upper, lower_flag, minimum)
+                                if not np.allclose(ks, ks_ref, rtol=1e-12, atol=1e-12):
+                                    fail(kind='value differs from the closed form m + log(sum exp(rho (c - m))) / rho', g=g.tolist(), rho=rho, upper=upper,
+                                         lower_flag=lower_flag, minimum=minimum, ks=ks.tolist(), expected=ks_ref.tolist())
                                 if width > 1 and len(set(g[0])) > 1:
                                     nontrivial.add((width, vec_size, rho, upper, lower_flag, minimum, g.tobytes()))
                                 # derivative vs complex step of the component's own compute
@@ -77,12 +117,70 @@ def main(tier):
                                     if minimum:
                                         kv = -kv
                                     Jcs[:, k] = kv.ravel().imag / h
+                                Jref = ref_jac(g, rho, upper, lower_flag, minimum)
+                                if not np.allclose(J, Jref, rtol=1e-9, atol=1e-12):
+                                    fail(kind='derivative differs from the softmax weights', g=g.tolist(), rho=rho, upper=upper, lower_flag=lower_flag,
+                                         minimum=minimum, J=J.tolist(), expected=Jref.tolist())
                                 if not np.allclose(J, Jcs, rtol=1e-8, atol=1e-10):
                                     fail(kind='derivative', g=g.tolist(), rho=rho, upper=upper, lower_flag=lower_flag,
                                          minimum=minimum, J=J.tolist(), Jcs=Jcs.tolist())
                                 if len(samples) < 2 and width == 3:
                                     samples.append({'g': g.tolist(), 'rho': rho, 'upper': upper, 'lower_flag': lower_flag,
                                                     'minimum': minimum, 'KS': ks.tolist()})
+    # ---- histories: the SAME constraint array evaluated with different rho (one component swept, two components fed from
+    # one source, KSfunction called directly), and rho alternating while g alternates
+    for width, g_rows in ((3, [[-3.0, 0.0, 2.0]]), (2, [[0.25, 2.0], [1.0e4, -3.0]]), (3, [[2.0, 2.0, 2.0 + 1e-9]])):
+        g = np.array(g_rows)
+        vs = g.shape[0]
+        for upper, lower_flag, minimum in itertools.product((0.0, 1.5), (False, True), (False, True)):
+            ev += 1
+            desc = dict(history='rho sweep on one KSComp with fixed g', g=g.tolist(), upper=upper, lower_flag=lower_flag, minimum=minimum)
+            p = om.Problem(reports=False)
+            p.model.add_subsystem('ks', om.KSComp(width=width, vec_size=vs, rho=50.0, upper=upper, lower_flag=lower_flag, minimum=minimum), promotes=['*'])
+            p.setup()
+            p.set_val('g', g)
+            for rho in (50.0, 0.5, 1.0e3, 0.5, 50.0):
+                p.model.ks.options['rho'] = rho
+                p.run_model()
+                ks = p.get_val('KS').ravel()
+                J = p.compute_totals(of=['KS'], wrt=['g'], return_format='array')
+                if not np.allclose(ks, ref_ks(g, rho, upper, lower_flag, minimum), rtol=1e-12, atol=1e-12):
+                    fail(kind='value differs from the closed form', rho=rho, ks=ks.tolist(), expected=ref_ks(g, rho, upper, lower_flag, minimum).tolist(), **desc)
+                    break
+                if not np.allclose(J, ref_jac(g, rho, upper, lower_flag, minimum), rtol=1e-9, atol=1e-12):
+                    fail(kind='derivative differs from the softmax weights', rho=rho, **desc)
+                    break
+            else:
+                nontrivial.add(('sweep', width, upper, lower_flag, minimum))
+            ev += 1
+            desc = dict(history='two KSComps with different rho fed from one source', g=g.tolist(), upper=upper, lower_flag=lower_flag, minimum=minimum)
+            p = om.Problem(reports=False)
+            p.model.add_subsystem('ivc', om.IndepVarComp('g', g), promotes=['*'])
+            for nm, rho in (('k1', 50.0), ('k2', 2.0), ('k3', 50.0)):
+                p.model.add_subsystem(nm, om.KSComp(width=width, vec_size=vs, rho=rho, upper=upper, lower_flag=lower_flag, minimum=minimum), promotes_inputs=['g'])
+            p.setup()
+            p.run_model()
+            ok = True
+            for nm, rho in (('k1', 50.0), ('k2', 2.0), ('k3', 50.0)):
+                ks = p.get_val(nm + '.KS').ravel()
+                J = p.compute_totals(of=[nm + '.KS'], wrt=['g'], return_format='array')
+                if not np.allclose(ks, ref_ks(g, rho, upper, lower_flag, minimum), rtol=1e-12, atol=1e-12) or \
+                        not np.allclose(J, ref_jac(g, rho, upper, lower_flag, minimum), rtol=1e-9, atol=1e-12):
+                    fail(kind='value or derivative differs from the closed form', component=nm, rho=rho, ks=ks.tolist(), **desc)
+                    ok = False
+                    break
+            if ok:
+                nontrivial.add(('shared', width, upper, lower_flag, minimum))
+        ev += 1
+        for rho1, rho2 in ((50.0, 2.0), (0.5, 1.0e3)):
+            k1 = KSfunction.compute(g, rho1)
+            k2 = KSfunction.compute(g, rho2)
+            d2 = KSfunction.derivatives(g, rho2)[0]
+            d1 = KSfunction.derivatives(g, rho1)[0]
+            for kv, dv, rho in ((k1, d1, rho1), (k2, d2, rho2)):
+                if not np.allclose(np.ravel(kv), ref_ks(g, rho, 0.0, False, False), rtol=1e-12, atol=1e-12) or \
+                        not np.allclose(dv, ref_w(g, rho), rtol=1e-9, atol=1e-12):
+                    fail(kind='KSfunction called twice on one array with different rho', g=g.tolist(), rho=rho)
     print(json.dumps({'evaluations': ev, 'distinct_nontrivial': len(nontrivial), 'n_failures': len(fails),
                       'failures': [f for f in fails if f], 'samples': samples}))
 
